@@ -885,6 +885,12 @@ def f_st(tier="quick", seed=0):
             rest = splits[1:-1]
             rnd.shuffle(rest)
             splits = keep + rest[:6]
+        elif tier == "thorough" and n >= 5 and len(splits) > 12:
+            # 5 and 6 loop ranks: 32 / 64 splits x 8 style sets x slip is hours of stamp queries; sample 12 splits
+            keep = [splits[0], splits[-1]]
+            rest = splits[1:-1]
+            rnd.shuffle(rest)
+            splits = keep + rest[:10]
         for space, time in splits:
             stylesets = []
             allpos = {r: "" for r in lo}
